@@ -256,6 +256,20 @@ def _chunk_events(rng):
         m0 = outcome(modwrite, fresh[1][0]) if fresh[0] == "ok" else fresh
         m1 = outcome(modwrite, chunk)
         events.append({"f": "modified-write:" + name, "before": str(before), "after": str(outcome(written, chunk)), "res1": str(m0), "res2": str(m1), "special": True})
+        # np.concatenate of a chunk with one replaced column and an untouched chunk: the untouched operand still writes its own bytes
+        for nm in fields:
+            pa, pb = outcome(make), outcome(make)
+            if pa[0] != "ok" or pb[0] != "ok":
+                continue
+            a_, b_ = pa[1][0], pb[1][0]
+            ra = outcome(lambda: replace(a_, **{nm: getattr(a_, nm)}))
+            if ra[0] != "ok":
+                continue
+            j1 = outcome(lambda: written(np.concatenate([ra[1], b_])))
+            mid_b = outcome(written, b_)
+            j2 = outcome(lambda: written(np.concatenate([ra[1], b_])))
+            events.append({"f": "concatenate-replaced-with-untouched:%s:%s" % (name, nm), "before": str(before), "after": str(outcome(written, b_) if mid_b == before else mid_b),
+                           "res1": str(j1), "res2": str(j2), "special": True})
     return events
 
 
